@@ -1024,6 +1024,10 @@ def solve(objfun, x0, h=None, lh=None, prox_uh=None, argsf=(), argsh=(), argspro
         ('growing.full_rank.use_full_rank_interp' in user_params or 'growing.perturb_trust_region_step' in user_params)
 
     scaling_changes = None
+    if scaling_within_bounds and not np.all(xu > xl):
+        # scaling divides by (xu - xl): a zero gap gives NaN, a negative one silently swaps the roles of the bounds
+        exit_info = ExitInformation(EXIT_INPUT_ERROR, "scaling_within_bounds requires lower bounds strictly below upper bounds")
+        return OptimResults(None, None, None, None, 0, 0, 0, exit_info.flag, exit_info.message(with_stem=True), None, None)
     if scaling_within_bounds:
         shift = xl.copy()
         scale = xu - xl
